@@ -433,7 +433,7 @@ def ar1(proj, rep, modules=None):
     n = 0
     for fi in proj.iter_functions():
         m = fi.module
-        if modules is not None and not any(m.qual == q or m.qual.startswith(q + '.') for q in modules):
+        if modules is not None and not any(m.name == q or m.name.startswith(q + '.') for q in modules):
             continue
         for c in ast.walk(fi.node):
             if not isinstance(c, ast.Call):
@@ -652,7 +652,7 @@ def ar2(proj, rep, modules=None):
     n = 0
     for fi in proj.iter_functions():
         m = fi.module
-        if modules is not None and not any(m.qual == q or m.qual.startswith(q + '.') for q in modules):
+        if modules is not None and not any(m.name == q or m.name.startswith(q + '.') for q in modules):
             continue
         for c in ast.walk(fi.node):
             if not (isinstance(c, ast.Call) and isinstance(c.func, ast.Attribute) and c.func.attr == 'reshape'):
@@ -750,3 +750,124 @@ def mc1(proj, rep, modules):
     rep.count('MC1.functions_scanned', nfun)
     rep.count('MC1.module_level_memos', n)
     return nfun, n
+
+
+# ------------------------------------------------------------------------------------------------ NZ1 / RO1 / DT2 / KR1
+RULE_NZ1 = ('NZ1: a slice `x[-(a-b):]` selects the last a-b entries only while a-b > 0; for a == b Python reads `-0:` as `0:` and returns EVERYTHING instead of '
+            'nothing. Such a slice needs a guard for the empty case (`if a==b: ...`) in the same function, or the positive form `x[b:]`.')
+RULE_RO1 = ('RO1: no reshape / ravel uses `order=\'A\'` or `order=\'K\'`: those make the unfolding depend on the memory layout of the argument '
+            '(an F-contiguous input - a .T view, a LAPACK / cvxpy result - is unfolded with the subsystem order reversed).')
+RULE_DT2 = ('DT2: index / occupation arithmetic is never done in a narrow integer dtype (int8, uint8, int16, uint16): products with place values wrap silently '
+            '(int8 from 128), so amplitudes land on wrong basis states.')
+RULE_KR1 = ('KR1: a batched Kronecker product written as `einsum(X, [i,r1,c1], Y, [j,r2,c2], [i,j,ra,rb,ca,cb]).reshape(-1, R, C)` lists the row legs and the column '
+            'legs in the SAME factor order as the batch legs: (ra,rb) = (r1,r2) and (ca,cb) = (c1,c2). Any other order is kron of the factors in a different '
+            'order than the element index says, or a row/column mix (non-Hermitian elements).')
+
+
+def nz1(proj, rep, modules):
+    rep.rule('NZ1', RULE_NZ1)
+    n = 0
+    for mq in modules:
+        m = proj.mod(mq)
+        for fi in [f for f in proj.funcs.values() if f.module is m]:
+            for c in ast.walk(fi.node):
+                if not isinstance(c, ast.Subscript):
+                    continue
+                sl = c.slice.elts if isinstance(c.slice, ast.Tuple) else [c.slice]
+                for s in sl:
+                    if isinstance(s, ast.Slice) and s.upper is None and isinstance(s.lower, ast.UnaryOp) and isinstance(s.lower.op, ast.USub) \
+                            and not isinstance(s.lower.operand, ast.Constant):
+                        n += 1
+                        rep.touch(m)
+                        op = s.lower.operand
+                        if isinstance(op, ast.BinOp) and isinstance(op.op, ast.Sub):
+                            a, b = ast.unparse(op.left).replace(' ', ''), ast.unparse(op.right).replace(' ', '')
+                            guarded = any(isinstance(x, ast.Compare) and len(x.ops) == 1 and isinstance(x.ops[0], (ast.Eq, ast.NotEq, ast.Gt, ast.Lt))
+                                          and {ast.unparse(x.left).replace(' ', ''), ast.unparse(x.comparators[0]).replace(' ', '')} == {a, b}
+                                          for x in ast.walk(fi.node) if not any(x is y for y in ast.walk(ast.Module(body=[s2 for s2 in fi.node.body if isinstance(s2, ast.Assert)], type_ignores=[]))))
+                            if guarded:
+                                rep.ok('NZ1', fi.qual, f'`{ast.unparse(c)[:50]}`: the empty case {a}=={b} is handled separately', m, c)
+                            else:
+                                rep.violation('NZ1', fi.qual, f'`{ast.unparse(c)[:60]}`: for {a} == {b} the bound is -0 and the slice returns the WHOLE array instead of an empty '
+                                              f'one (no guard for that case in the function)', m, c)
+                        else:
+                            rep.ok('NZ1', fi.qual, f'`{ast.unparse(c)[:50]}`: bound is a single (positive) quantity', m, c)
+    rep.count('NZ1.negative_lower_slices', n)
+    return n
+
+
+def ro1(proj, rep, modules):
+    rep.rule('RO1', RULE_RO1)
+    n = 0
+    for mq in modules:
+        m = proj.mod(mq)
+        for c in ast.walk(m.tree):
+            if isinstance(c, ast.Call) and ast.unparse(c.func).split('.')[-1] in ('reshape', 'ravel', 'flatten'):
+                n += 1
+                o = next((k.value for k in c.keywords if k.arg == 'order'), None)
+                if o is not None and not (isinstance(o, ast.Constant) and o.value in ('C', 'F')):
+                    rep.touch(m)
+                    rep.violation('RO1', mq, f'`{ast.unparse(c)[:80]}` unfolds in order={ast.unparse(o)}: the result depends on the memory layout of the argument', m, c)
+        rep.touch(m)
+    rep.count('RO1.reshape_calls', n)
+    if n:
+        rep.ok('RO1', ','.join(modules)[:60], f'{n} reshape / ravel calls, none with a layout-dependent order', proj.mod(modules[0]), proj.mod(modules[0]).tree, text='reshape order')
+    return n
+
+
+def dt2(proj, rep, modules):
+    rep.rule('DT2', RULE_DT2)
+    n = 0
+    for mq in modules:
+        m = proj.mod(mq)
+        rep.touch(m)
+        for fi in [f for f in proj.funcs.values() if f.module is m]:
+            n += 1
+            bad = None
+            for c in ast.walk(fi.node):
+                if isinstance(c, ast.Attribute) and c.attr in ('int8', 'uint8', 'int16', 'uint16') and isinstance(c.value, ast.Name) and c.value.id in ('np', 'numpy', 'torch'):
+                    bad = c
+                    break
+            if bad is not None:
+                st = bad
+                while not isinstance(st, ast.stmt):
+                    st = st._parent
+                rep.violation('DT2', fi.qual, f'`{ast.unparse(st)[:90]}` uses the narrow integer dtype {ast.unparse(bad)} in index / occupation arithmetic: values beyond its range '
+                              f'wrap silently', m, st)
+            else:
+                rep.ok('DT2', fi.qual, 'no narrow integer dtype', m, fi.node, text=f'{fi.qual} dtypes')
+    rep.count('DT2.functions', n)
+    return n
+
+
+def kr1(proj, rep, modules):
+    rep.rule('KR1', RULE_KR1)
+    n = 0
+    for mq in modules:
+        m = proj.mod(mq)
+        for fi in [f for f in proj.funcs.values() if f.module is m]:
+            for c in ast.walk(fi.node):
+                if not (isinstance(c, ast.Call) and ast.unparse(c.func).split('.')[-1] in ('einsum', 'contract') and len(c.args) == 5):
+                    continue
+                try:
+                    l1, l2, out = [[e.value for e in c.args[k].elts] for k in (1, 3, 4)]
+                except AttributeError:
+                    continue
+                if not (len(l1) == 3 and len(l2) == 3 and len(out) == 6 and len(set(l1 + l2)) == 6 and sorted(out) == sorted(l1 + l2)):
+                    continue
+                par = getattr(c, '_parent', None)
+                if not (isinstance(par, ast.Attribute) and par.attr == 'reshape'):
+                    continue
+                n += 1
+                rep.touch(m)
+                want = [l1[0], l2[0], l1[1], l2[1], l1[2], l2[2]]
+                if out == want:
+                    rep.ok('KR1', fi.qual, f'batched kron: output {out} = (i, j, r1, r2, c1, c2)', m, c)
+                elif out[:2] == [l1[0], l2[0]] and out[2:4] == [l2[1], l1[1]] and out[4:] == [l2[2], l1[2]]:
+                    rep.violation('KR1', fi.qual, f'`{ast.unparse(c)[:100]}`: the batch legs are ordered (first, second) but rows and columns are merged (second, first): element '
+                                  f'(a,b) of the result is kron(Y_b, X_a), not kron(X_a, Y_b) - the documented tensor-product order is reversed', m, c)
+                else:
+                    rep.violation('KR1', fi.qual, f'`{ast.unparse(c)[:100]}`: output legs {out} are not (i, j, r1, r2, c1, c2) = {want}: rows and columns of the product are '
+                                  f'merged in different factor orders (the elements are not Kronecker products; not Hermitian for Hermitian factors)', m, c)
+    rep.count('KR1.batched_kron', n)
+    return n
